@@ -108,7 +108,8 @@ pub fn run(a: &Args) {
     let mut n = 0;
     let mut died = 0;
     let mut samples = vec![];
-    let jobs: Vec<(String, usize, String)> = SHAPES.iter().flat_map(|s| depths.iter().flat_map(move |d| APIS.iter().map(move |api| (s.to_string(), *d, api.to_string())))).collect();
+    // (the text of the 'k:' per level shape grows with the square of the depth: 450 MB at 30 000 levels)
+    let jobs: Vec<(String, usize, String)> = SHAPES.iter().flat_map(|s| depths.iter().flat_map(move |d| APIS.iter().map(move |api| (s.to_string(), *d, api.to_string())))).filter(|j| !(j.0 == "map" && j.1 > 30000)).collect();
     let results: Vec<Value> = std::thread::scope(|sc| {
         let chunks: Vec<_> = jobs.chunks((jobs.len() + 7) / 8).collect();
         let hs: Vec<_> = chunks.into_iter().map(|ch| {
